@@ -49,6 +49,7 @@ type tracer struct {
 	topFailed bool
 	depth     int
 	viol      map[string]string // decoder name -> what
+	hops      []string          // zero-progress hops decoder->callee
 }
 
 func newTracer() *tracer {
@@ -202,8 +203,15 @@ func (t *tracer) disciplined() bool {
 				t.viol[inv.name] = "NextDecoder without a preceding AddLayer"
 				ok = false
 			} else if pl := len(inv.events[lastAdd].l.LayerPayload()); pl >= inv.inLen && inv.inLen > 0 {
-				t.viol[inv.name] = fmt.Sprintf("no progress: payload of the added layer (%d bytes) is not shorter than the input (%d bytes)", pl, inv.inLen)
-				ok = false
+				if e.name == inv.name || pl > inv.inLen {
+					// no termination measure can rank a decoder above itself on the same input
+					t.viol[inv.name] = fmt.Sprintf("no progress: hands %d bytes of a %d-byte input on to %s", pl, inv.inLen, e.name)
+					ok = false
+				} else {
+					// a zero-length header handing the whole input to a DIFFERENT decoder: inside DM μ for a
+					// measure ranking this decoder above its callee (Gp.C03.zero_progress_hop); counted
+					t.hops = append(t.hops, inv.name+"->"+e.name)
+				}
 			}
 		}
 	}
@@ -220,6 +228,9 @@ func (t *tracer) report() {
 		lib.Finding("C03", "pkt:discipline:"+n, "decoder "+n+" is outside the discipline D of Gp.C03.lazy_eq_eager: "+t.viol[n])
 	}
 	lib.Stat("real:invocations:" + strconv.Itoa(minInt(len(t.invs), 8)))
+	for _, h := range t.hops {
+		lib.Stat("real:zero-progress-hop:" + h)
+	}
 }
 
 // tableLines renders the eager trace as decoder table ops for the model.
@@ -492,10 +503,11 @@ func genReal(r *lib.Rand, tier string, emit func(string)) {
 		if dsad {
 			dsadBit = optDSAD
 		}
-		eopts := dsadBit | []int{0, optNoCopy, optPool, optPool | optNoCopy}[r.Intn(4)]
-		lopts := dsadBit | optLazy | []int{0, optNoCopy, optPool, 0}[r.Intn(4)]
-		emit(fmt.Sprintf("pkt rnew 0 %d %d 0", eopts, int(j.lt)))
-		emit(fmt.Sprintf("pkt rnew 1 %d %d 0", lopts, int(j.lt)))
+		// correspondence with the model: copying option sets (the decoders see exactly len bytes);
+		// NoCopy/Pool on real decoders: implementation-side comparison with the default decode (rnewx)
+		emit(fmt.Sprintf("pkt rnew 0 %d %d 0", dsadBit, int(j.lt)))
+		emit(fmt.Sprintf("pkt rnew 1 %d %d 0", dsadBit|optLazy, int(j.lt)))
+		emit(fmt.Sprintf("pkt rnewx %d %d 0", dsadBit|[]int{optNoCopy, optPool, optPool | optLazy, optNoCopy | optLazy}[r.Intn(4)], int(j.lt)))
 		nacc := 2 + r.Intn(5)
 		for i := 0; i < nacc; i++ {
 			var a string
